@@ -249,12 +249,22 @@ def run_impl(exe, cases, bdir, tag='impl', timeout=600):
     env['ASAN_OPTIONS'] = ASAN_ENV
     env['UBSAN_OPTIONS'] = 'print_stacktrace=1:halt_on_error=1:exitcode=97'
     remaining = list(cases); result = {}; crashes = {}
-    rounds = 0
+    rounds = 0; timeouts = 0
     while remaining and rounds < 25:
         rounds += 1
         spath = os.path.join(bdir, '%s_%d.script' % (tag, rounds))
         write_script(spath, remaining)
-        rc, out, dt = sh([exe, spath], timeout=timeout, env=env)
+        # a hang of the implementation is a failure of the case that hangs, not of the check: after the first timeout the
+        # later rounds get a short limit, and after three hangs the rest of the batch is abandoned (reported as not run)
+        rc, out, dt = sh([exe, spath], timeout=(timeout if timeouts == 0 else min(timeout, 120)), env=env)
+        if rc == 124:
+            timeouts += 1
+            out += '\n[the harness did not finish within its time limit: the implementation hangs or loops on this case]'
+            if timeouts >= 3:
+                tr, order = parse_transcript(out)
+                if order:
+                    crashes[order[-1]] = ('[exit %d]\n' % rc) + out[-3000:]
+                break
         tr, order = parse_transcript(out)
         if rc == 0:
             result.update(tr); break
@@ -478,7 +488,7 @@ class Check:
                 rng = random.Random(self.seed * 1000003 + zlib_crc(name))
                 cases = self.corpus_cases(fam) + fam['gen'](rng, self.tier)
             t0 = time.time()
-            impl_tr, crashes = run_impl(exe, cases, fb, timeout=fam.get('impl_timeout', 900))
+            impl_tr, crashes = run_impl(exe, cases, fb, timeout=fam.get('impl_timeout', 300 if self.tier == 'quick' else 1800))
             t1 = time.time()
             if model is not None:
                 model_tr, merrs = run_model(model, cases, impl_tr, fb)
@@ -592,10 +602,13 @@ class Check:
 
     def shrink(self, fam, exe, model, case, fb, pred, budget=120):
         """Delta-debugging over the op list (keeping the failure alive)."""
-        ops = list(case['ops']); runs = 0
+        ops = list(case['ops']); runs = 0; t_start = time.time()
         def test(cand):
             nonlocal runs
             runs += 1
+            if time.time() - t_start > 240:      # shrinking is a convenience: bounded in time as well as in runs
+                runs = budget
+                return False
             st = self.run_single(fam, exe, model, dict(id=case['id'], ops=cand), fb)
             return bool(pred(st))
         try:
